@@ -5,22 +5,48 @@ regenerates from pkg/namer/std.list on every run: an edit to std.list re-checks 
 namespace Gengo.LocalName
 
 abbrev stdPaths : List Str := Gengo.Gen.stdPaths
-]
 
-/-- every std short name is a valid non-keyword identifier (kernel evaluation of the whole table) -/
-theorem std_names_valid : (stdTable stdPaths).all (fun e => isIdent e.1) = true := by decide +kernel
+def nodupB : List Str → Bool
+  | [] => true
+  | x :: xs => !xs.contains x && nodupB xs
+
+theorem nodupB_nodup : (l : List Str) → nodupB l = true → l.Nodup
+  | [], _ => List.nodup_nil
+  | x :: xs, h => by
+    simp only [nodupB, Bool.and_eq_true, Bool.not_eq_true', List.contains_eq_mem, decide_eq_false_iff_not] at h
+    exact List.nodup_cons.mpr ⟨h.1, nodupB_nodup xs h.2⟩
+
+/-- all the facts below as one Boolean, so that the kernel evaluates the table once -/
+def stdOK (t : List (Str × Str)) : Bool :=
+  t.all (fun e => isIdent e.1) && (t.length == stdPaths.length) &&
+  nodupB (t.map (·.1)) && nodupB (t.map (·.2)) &&
+  (t.lookup "json".toList == some "encoding/json".toList) &&
+  (t.lookup "template".toList == some "html/template".toList) &&
+  (t.lookup "texttemplate".toList == some "text/template".toList)
+
+/-- kernel evaluation (`decide +kernel`, no `native_decide`) over the regenerated list -/
+theorem std_ok : stdOK (stdTable stdPaths) = true := by decide +kernel
+
+/-- every std short name is a valid non-keyword identifier -/
+theorem std_names_valid : (stdTable stdPaths).all (fun e => isIdent e.1) = true := by
+  have h := std_ok; simp only [stdOK, Bool.and_eq_true] at h; exact h.1.1.1.1.1.1
 
 /-- every std path got a name: the table has one entry per line of std.list -/
-theorem std_all_bound : (stdTable stdPaths).length = stdPaths.length := by decide +kernel
+theorem std_all_bound : (stdTable stdPaths).length = stdPaths.length := by
+  have h := std_ok; simp only [stdOK, Bool.and_eq_true] at h; exact beq_iff_eq.mp h.1.1.1.1.1.2
 
 /-- std short names are pairwise distinct and std paths are pairwise distinct -/
-theorem std_names_nodup : ((stdTable stdPaths).map (·.1)).Nodup := by decide +kernel
-theorem std_paths_nodup : ((stdTable stdPaths).map (·.2)).Nodup := by decide +kernel
+theorem std_names_nodup : ((stdTable stdPaths).map (·.1)).Nodup := by
+  have h := std_ok; simp only [stdOK, Bool.and_eq_true] at h; exact nodupB_nodup _ h.1.1.1.1.2
+theorem std_paths_nodup : ((stdTable stdPaths).map (·.2)).Nodup := by
+  have h := std_ok; simp only [stdOK, Bool.and_eq_true] at h; exact nodupB_nodup _ h.1.1.1.2
 
 /-- spot facts the property text mentions -/
-example : (stdTable stdPaths).lookup "json".toList = some "encoding/json".toList := by decide +kernel
-example : (stdTable stdPaths).lookup "template".toList = some "html/template".toList ∧
-    (stdTable stdPaths).lookup "texttemplate".toList = some "text/template".toList := by decide +kernel
+theorem std_json : (stdTable stdPaths).lookup "json".toList = some "encoding/json".toList := by
+  have h := std_ok; simp only [stdOK, Bool.and_eq_true] at h; exact beq_iff_eq.mp h.1.1.2
+theorem std_templates : (stdTable stdPaths).lookup "template".toList = some "html/template".toList ∧
+    (stdTable stdPaths).lookup "texttemplate".toList = some "text/template".toList := by
+  have h := std_ok; simp only [stdOK, Bool.and_eq_true] at h; exact ⟨beq_iff_eq.mp h.1.2, beq_iff_eq.mp h.2⟩
 
 #print axioms std_names_valid
 #print axioms std_names_nodup
